@@ -5,7 +5,7 @@ import vlib
 LABEL = {0: 'reserved', 1: 'NA', 2: 'NE', 3: 'pass', 4: 'info', 5: 'warn', 6: 'error', 7: 'fatal'}
 ASSUME = ['static part: go/packages + SSA of /repo; constants stored into LintResult.Status (directly or through phi) on paths reachable from a lint\'s Execute '
           'and not shared with lints of another prefix are taken as emittable; other uses of status constants only gate with a dynamic witness',
-          'dynamic part: statuses observed in the corpus sweep']
+          'dynamic part: statuses observed in the corpus sweep and on the planted-name certificates']
 
 
 def run(ctx):
@@ -19,6 +19,13 @@ def run(ctx):
     for s in json.load(open(os.path.join(d, 'statuses.json'))):
         n, st = s.rsplit('|', 1)
         observed.setdefault(n, set()).add(int(st))
+    # more dynamic witnesses: the vocabulary of names planted as common name / SAN entry on templates (reaches the branches of
+    # the DNS-name rules that look at the common name), and the several-offender inputs of Plan_Multi
+    d2 = vlib.drive(ctx, exe, 'plant')
+    for s in json.load(open(os.path.join(d2, 'statuses.json'))):
+        n, st = s.rsplit('|', 1)
+        observed.setdefault(n, set()).add(int(st))
+    planted = json.load(open(os.path.join(d2, 'summary.json')))['planted']
     # runtime names (every registered lint gets an event, in the census or not)
     names = sorted(set(observed) | {r['name'] for r in ex['registrations']})
     byname = {r['name']: r for r in ex['registrations']}
@@ -47,7 +54,7 @@ def run(ctx):
                distinct_nontrivial=findings, programs=len(names), exhaustive=True,
                rule='one event per registered lint (all of them): statically emittable statuses of every return path (SSA) + statuses observed on the corpus; '
                     'non-trivial = lints observed with a finding status',
-               samples=[json.loads(lines[0]), json.loads(lines[len(lines) // 2])],
+               samples=[json.loads(lines[0]), json.loads(lines[len(lines) // 2])], planted_inputs=planted,
                trusted_base=['golang.org/x/tools go/packages + ssa'])
     return vlib.finish(ctx, 'model_checking', cov, ASSUME)
 
